@@ -291,6 +291,9 @@ func checkCase(r *ev.Report, c caseDesc) (evals int64) {
 			}
 			for _, p := range pairs {
 				got, _, ok := host.SelectLink(p.Number)
+				if p.Underline == "" {
+					continue // the link text cannot be told from its surroundings: counted only
+				}
 				if !ok || got != p.Underline {
 					fail("wrong-target", fmt.Sprintf("number %d is shown next to %q but opens %q (present=%v)", p.Number, p.Underline, got, ok))
 					return
